@@ -781,8 +781,16 @@ class BlobStorage(BlobStorageMixin):
         # We need to override the base storage's abort instead of
         # providing an _abort method because methods found on the proxied
         # object aren't rebound to the proxy
+
+        # The wrapped storage ignores an abort for a transaction other
+        # than the one in progress; then the blobs of the transaction in
+        # progress must not be removed either.
+        transaction = arg[0] if arg else kw.get('transaction')
+        tpc_transaction = getattr(self.__storage, 'tpc_transaction', None)
+        current = tpc_transaction() if tpc_transaction is not None else None
         self.__storage.tpc_abort(*arg, **kw)
-        self._blob_tpc_abort()
+        if current is None or current is transaction:
+            self._blob_tpc_abort()
 
     def _packUndoing(self, packtime, referencesf):
         # Walk over all existing revisions of all blob files and check
